@@ -749,8 +749,6 @@ class CSSStyleSheet(cssutils.stylesheets.StyleSheet):
                             r.PAGE_RULE,
                             r.STYLE_RULE,
                             r.FONT_FACE_RULE,
-                            r.UNKNOWN_RULE,
-                            r.COMMENT,
                         ):
                             index = i  # before these
                             break
@@ -810,8 +808,6 @@ class CSSStyleSheet(cssutils.stylesheets.StyleSheet):
                             r.PAGE_RULE,
                             r.STYLE_RULE,
                             r.FONT_FACE_RULE,
-                            r.UNKNOWN_RULE,
-                            r.COMMENT,
                         ):
                             index = i  # before these
                             break
